@@ -297,7 +297,7 @@ func ruleDetectAllPages(c *eng.Ctx) {
 				continue
 			}
 			key := eng.FuncName(fn) + "#detectHeaderFooter"
-			arg := ci.Common().Args[1]
+			arg := ci.Common().Args[len(ci.Common().Args)-1] // the pages (after the receiver, if it is still a method)
 			fromCollect := false
 			if ex, ok := arg.(*ssa.Extract); ok && ex.Index == 0 {
 				if call, ok := ex.Tuple.(*ssa.Call); ok && call.Call.StaticCallee() == collect {
